@@ -1084,5 +1084,312 @@ theorem buildWith_ok (a : Ast ν) (wf : WFNames a) (hd : ¬ Dangling a) (fuel : 
       omega)
   exact ⟨_, by simp only [buildWith, hc, hm, hh, ht]; rfl⟩
 
+/-! ## 11. canonical sets; required-sets of groups are determined up to membership -/
+
+omit [DecidableEq ν] in
+theorem mem_dedupSorted (x : Nat) : ∀ l, x ∈ dedupSorted l ↔ x ∈ l := by
+  intro l
+  induction l with
+  | nil => simp [dedupSorted]
+  | cons a r ih =>
+    cases r with
+    | nil => simp [dedupSorted]
+    | cons b r' =>
+      rw [dedupSorted.eq_3]
+      split
+      · rename_i hab; subst hab
+        rw [ih]; simp
+      · rw [List.mem_cons, ih, List.mem_cons (a := x) (b := a)]
+
+omit [DecidableEq ν] in
+theorem dedupSorted_strict : ∀ l : List Nat, l.Pairwise (fun x y => x ≤ y) →
+    (dedupSorted l).Pairwise (fun x y => x < y) := by
+  intro l
+  induction l with
+  | nil => intro _; simp [dedupSorted]
+  | cons a r ih =>
+    intro hp
+    cases r with
+    | nil => simp [dedupSorted]
+    | cons b r' =>
+      rw [List.pairwise_cons] at hp
+      obtain ⟨ha, hp'⟩ := hp
+      rw [dedupSorted.eq_3]
+      split
+      · exact ih hp'
+      · rename_i hab
+        rw [List.pairwise_cons]
+        refine ⟨fun y hy => ?_, ih hp'⟩
+        rw [mem_dedupSorted] at hy
+        have hab' : a ≤ b := ha b (List.mem_cons_self ..)
+        rw [List.pairwise_cons] at hp'
+        rcases List.mem_cons.1 hy with rfl | hy'
+        · omega
+        · have := hp'.1 y hy'; omega
+
+omit [DecidableEq ν] in
+theorem strict_sorted_ext : ∀ l₁ l₂ : List Nat, l₁.Pairwise (fun x y => x < y) →
+    l₂.Pairwise (fun x y => x < y) → (∀ x, x ∈ l₁ ↔ x ∈ l₂) → l₁ = l₂ := by
+  intro l₁
+  induction l₁ with
+  | nil =>
+    intro l₂ _ _ h
+    cases l₂ with
+    | nil => rfl
+    | cons b r => exact absurd ((h b).2 (List.mem_cons_self ..)) (by simp)
+  | cons a r₁ ih =>
+    intro l₂ h₁ h₂ h
+    cases l₂ with
+    | nil => exact absurd ((h a).1 (List.mem_cons_self ..)) (by simp)
+    | cons b r₂ =>
+      rw [List.pairwise_cons] at h₁ h₂
+      have hab : a = b := by
+        have h1 := (h a).1 (List.mem_cons_self ..)
+        have h2 := (h b).2 (List.mem_cons_self ..)
+        rcases List.mem_cons.1 h1 with e | h1'
+        · exact e
+        · rcases List.mem_cons.1 h2 with e | h2'
+          · exact e.symm
+          · have := h₁.1 b h2'; have := h₂.1 a h1'; omega
+      subst hab
+      congr 1
+      apply ih r₂ h₁.2 h₂.2
+      intro x
+      constructor
+      · intro hx
+        rcases List.mem_cons.1 ((h x).1 (List.mem_cons_of_mem _ hx)) with e | hx'
+        · have := h₁.1 x hx; omega
+        · exact hx'
+      · intro hx
+        rcases List.mem_cons.1 ((h x).2 (List.mem_cons_of_mem _ hx)) with e | hx'
+        · have := h₂.1 x hx; omega
+        · exact hx'
+
+omit [DecidableEq ν] in
+theorem mem_canonSet {x : Nat} {l : List Nat} : x ∈ canonSet l ↔ x ∈ l := by
+  unfold canonSet
+  rw [mem_dedupSorted, List.mem_mergeSort]
+
+omit [DecidableEq ν] in
+theorem canonSet_strict (l : List Nat) : (canonSet l).Pairwise (fun x y => x < y) := by
+  unfold canonSet
+  apply dedupSorted_strict
+  have := List.pairwise_mergeSort (le := fun a b : Nat => decide (a ≤ b))
+    (fun a b c h1 h2 => by simp only [decide_eq_true_eq] at *; omega)
+    (fun a b => by simp only [Bool.or_eq_true, decide_eq_true_eq]; omega) l
+  exact this.imp (fun h => by simpa using h)
+
+/-- the canonical form depends on the members only -/
+theorem canonSet_congr {l₁ l₂ : List Nat} (h : ∀ x, x ∈ l₁ ↔ x ∈ l₂) : canonSet l₁ = canonSet l₂ :=
+  strict_sorted_ext _ _ (canonSet_strict l₁) (canonSet_strict l₂)
+    (fun x => by rw [mem_canonSet, mem_canonSet]; exact h x)
+
+omit [DecidableEq ν] in
+theorem sameSet_of_mem_iff {l₁ l₂ : List Nat} (h : ∀ x, x ∈ l₁ ↔ x ∈ l₂) : sameSet l₁ l₂ = true := by
+  unfold sameSet
+  rw [canonSet_congr h]; simp
+
+omit [DecidableEq ν] in
+theorem sameReqL_append : ∀ (cs cs' fs fs' : List FDef), sameReqL cs cs' = true →
+    sameReqL fs fs' = true → sameReqL (cs ++ fs) (cs' ++ fs') = true := by
+  intro cs
+  induction cs with
+  | nil =>
+    intro cs' fs fs' h1 h2
+    cases cs' with
+    | nil => simpa using h2
+    | cons c' r' => simp [sameReqL] at h1
+  | cons c r ih =>
+    intro cs' fs fs' h1 h2
+    cases cs' with
+    | nil => simp [sameReqL] at h1
+    | cons c' r' =>
+      simp only [sameReqL, Bool.and_eq_true] at h1
+      simp only [List.cons_append, sameReqL, Bool.and_eq_true]
+      exact ⟨h1.1, ih r' fs fs' h1.2 h2⟩
+
+theorem Expands.sameReq {a : Ast ν} (wf : WFNames a) {ms : List (Member ν)} {fs : List FDef}
+    (h : Expands a ms fs) : ∀ fs', Expands a ms fs' → sameReqL fs fs' = true := by
+  induction h with
+  | nil => intro fs' h'; cases h'; simp [sameReqL]
+  | field hf _ ih =>
+    intro fs' h'
+    cases h' with
+    | field hf' hr' =>
+      simp only [sameReqL, FDef.sameReq, Bool.and_eq_true]
+      exact ⟨⟨sameSet_of_mem_iff (fun _ => Iff.rfl), trivial⟩, ih _ hr'⟩
+  | group hf _ hrq _ ihg ihr =>
+    intro fs' h'
+    cases h' with
+    | group hf' hg' hrq' hr' =>
+      simp only [sameReqL, FDef.sameReq, Bool.and_eq_true]
+      exact ⟨⟨sameSet_of_mem_iff (fun x => (hrq x).trans (hrq' x).symm), ihg _ hg'⟩, ihr _ hr'⟩
+  | comp hc _ _ ihc ihr =>
+    intro fs' h'
+    cases h' with
+    | comp hc' hcs' hr' =>
+      have := CompDef.unique wf hc hc'
+      subst this
+      exact sameReqL_append _ _ _ _ (ihc _ hcs') (ihr _ hr')
+
+/-- the monitor has nothing to say about a dump that expands the members and has the spec's tag sets -/
+theorem monMsg_silent {a : Ast ν} (wf : WFNames a) (f : Nat) {ms : List (Member ν)} {d : MsgDump}
+    (hflat : Expands a ms d.flat) (htags : ∀ t, t ∈ d.tags ↔ ReachM a ms t)
+    (hreq : ∀ t, t ∈ d.req ↔ ReqM a ms t) (hmap : d.fmapOK = true) : monMsg a f ms d = [] := by
+  unfold monMsg
+  split
+  · rfl
+  · rename_i fs rq he
+    obtain ⟨hexp, hrq⟩ := expandSpec_sound a wf f ms fs rq he
+    have h1 : canonSet (fs.flatMap FDef.allTags) = canonSet d.tags :=
+      canonSet_congr (fun x => (hexp.tags_iff wf x).trans (htags x).symm)
+    have h2 : canonSet rq = canonSet d.req :=
+      canonSet_congr (fun x => (hrq x).trans (hreq x).symm)
+    simp [h1, h2, hexp.sameShape wf _ hflat, hexp.sameReq wf _ hflat, hmap]
+
+/-! ## 12. the Bool guards of the monitor are the declarative predicates -/
+
+omit [DecidableEq ν] in
+theorem distinctB_iff {α β : Type} [DecidableEq β] (key : α → β) (l : List α) :
+    distinctB key l = true ↔ l.Pairwise (fun x y => key x ≠ key y) := by
+  induction l with
+  | nil => simp [distinctB]
+  | cons x r ih => simp [distinctB, List.pairwise_cons, List.all_eq_true, ih]
+
+theorem wfNamesB_iff (a : Ast ν) : wfNamesB a = true ↔ WFNames a := by
+  unfold wfNamesB
+  simp only [Bool.and_eq_true, distinctB_iff]
+  constructor
+  · rintro ⟨⟨⟨h1, h2⟩, h3⟩, h4⟩; exact ⟨h1, h2, h3, h4⟩
+  · rintro ⟨h1, h2, h3, h4⟩; exact ⟨⟨⟨h1, h2⟩, h3⟩, h4⟩
+
+theorem specComp_isSome {a : Ast ν} {n : ν} :
+    (specComp a n).isSome = true ↔ ∃ cms, CompDef a n cms := by
+  unfold specComp
+  rw [Option.isSome_map, find?_key_isSome (key := fun c : ν × List (Member ν) => c.1)]
+  constructor
+  · rintro ⟨c, hc, hn⟩; exact ⟨c.2, by unfold CompDef; rw [← hn]; exact hc⟩
+  · rintro ⟨cms, hc⟩; exact ⟨(n, cms), hc, rfl⟩
+
+theorem refsOKB_sound (a : Ast ν) : ∀ f ms, refsOKB a f ms = true → RefsOK a ms := by
+  intro f
+  induction f with
+  | zero => intro ms h; simp [refsOKB] at h
+  | succ f ih =>
+    intro ms h
+    cases ms with
+    | nil => exact .nil
+    | cons m rest =>
+      cases m with
+      | field n r =>
+        simp only [refsOKB, Bool.and_eq_true] at h
+        obtain ⟨t, ht⟩ := specFieldNum_isSome.1 h.1
+        exact .field ht (ih rest h.2)
+      | group n r gms =>
+        simp only [refsOKB, Bool.and_eq_true] at h
+        obtain ⟨t, ht⟩ := specFieldNum_isSome.1 h.1.1
+        exact .group ht (ih gms h.1.2) (ih rest h.2)
+      | comp n r =>
+        simp only [refsOKB, Bool.and_eq_true] at h
+        obtain ⟨cms, hc⟩ := specComp_isSome.1 h.1
+        exact .comp hc (ih rest h.2)
+
+theorem refsOKB_complete (a : Ast ν) : ∀ f ms, RefsOK a ms → membersSize ms ≤ f → refsOKB a f ms = true := by
+  intro f
+  induction f with
+  | zero => intro ms _ hsz; have := membersSize_pos ms; omega
+  | succ f ih =>
+    intro ms hr hsz
+    cases hr with
+    | nil => simp [refsOKB]
+    | @field n r rest t hf hrest =>
+      simp only [membersSize, Member.size] at hsz
+      simp only [refsOKB, Bool.and_eq_true]
+      exact ⟨specFieldNum_isSome.2 ⟨t, hf⟩, ih rest hrest (by omega)⟩
+    | @group n r gms rest t hf hg hrest =>
+      simp only [membersSize, Member.size] at hsz
+      have := membersSize_pos rest
+      have := membersSize_pos gms
+      simp only [refsOKB, Bool.and_eq_true]
+      exact ⟨⟨specFieldNum_isSome.2 ⟨t, hf⟩, ih gms hg (by omega)⟩, ih rest hrest (by omega)⟩
+    | @comp n r rest cms hc hrest =>
+      simp only [membersSize, Member.size] at hsz
+      simp only [refsOKB, Bool.and_eq_true]
+      exact ⟨specComp_isSome.2 ⟨cms, hc⟩, ih rest hrest (by omega)⟩
+
+theorem danglingB_iff (a : Ast ν) : danglingB a = true ↔ Dangling a := by
+  unfold danglingB Dangling
+  rw [List.any_eq_true]
+  constructor
+  · rintro ⟨ms, hms, h⟩
+    refine ⟨ms, hms, fun hr => ?_⟩
+    rw [refsOKB_complete a _ ms hr (Nat.le_succ _)] at h
+    cases h
+  · rintro ⟨ms, hms, h⟩
+    refine ⟨ms, hms, ?_⟩
+    cases hb : refsOKB a (membersSize ms + 1) ms with
+    | true => exact absurd (refsOKB_sound a _ ms hb) h
+    | false => rfl
+
+/-! ## 13. what is loaded: the declared message types, header and trailer -/
+
+theorem buildMsgs_keys (a : Ast ν) (fuel : Nat) (mk : List Part → MDef) (memo : Memo ν) :
+    ∀ l acc msgs, buildMsgs a fuel mk memo l acc = .ok msgs →
+    msgs.map (·.1) = (l.map (·.1)).reverse ++ acc.map (·.1) := by
+  intro l
+  induction l with
+  | nil => intro acc msgs h; simp only [buildMsgs] at h; cases h; simp
+  | cons c rest ih =>
+    obtain ⟨mt, ms⟩ := c
+    intro acc msgs h
+    simp only [buildMsgs] at h
+    split at h
+    · cases h
+    · rw [ih _ msgs h]; simp
+
+theorem buildOpt_isSome {a : Ast ν} {fuel : Nat} {mk : List Part → MDef} {memo : Memo ν}
+    {o : Option (List (Member ν))} {r : Option MDef} (h : buildOpt a fuel mk memo o = .ok r) :
+    r.isSome = o.isSome := by
+  cases o with
+  | none => simp only [buildOpt] at h; cases h; rfl
+  | some ms => obtain ⟨ps, _, _, rfl⟩ := buildOpt_some h; rfl
+
+theorem specMsg_isSome {a : Ast ν} {mt : ν} :
+    (specMsg a mt).isSome = true ↔ ∃ c ∈ a.msgs, c.1 = mt := by
+  unfold specMsg
+  rw [Option.isSome_map, find?_key_isSome (key := fun c : ν × List (Member ν) => c.1)]
+
+theorem buildWith_loaded {a : Ast ν} {fuel : Nat} {mk : List Part → MDef} {d : Dict ν}
+    (h : buildWith a fuel mk = .ok d) :
+    (∀ mt, mt ∈ d.msgs.map (·.1) ↔ ∃ c ∈ a.msgs, c.1 = mt) ∧
+    d.header.isSome = a.header.isSome ∧ d.trailer.isSome = a.trailer.isSome := by
+  obtain ⟨_, hm, hh, ht⟩ := buildWith_inv h
+  refine ⟨fun mt => ?_, buildOpt_isSome hh, buildOpt_isSome ht⟩
+  rw [buildMsgs_keys a fuel mk d.comps a.msgs [] d.msgs hm]
+  simp
+
+theorem monLoad_loaded_silent {a : Ast ν} (wf : WFNames a) {fuel : Nat} {mk : List Part → MDef} {d : Dict ν}
+    (h : buildWith a fuel mk = .ok d) :
+    monLoad a (.loaded (d.msgs.map (·.1)) d.header.isSome d.trailer.isSome) = [] := by
+  obtain ⟨hk, hh, ht⟩ := buildWith_loaded h
+  have hdang : danglingB a = false := by
+    cases hb : danglingB a with
+    | false => rfl
+    | true =>
+      obtain ⟨ms, hms, hn⟩ := (danglingB_iff a).1 hb
+      exact absurd (buildWith_refsOK wf h ms hms) hn
+  have h1 : (d.msgs.map (·.1)).all (fun m => (specMsg a m).isSome) = true := by
+    rw [List.all_eq_true]
+    intro m hm
+    exact specMsg_isSome.2 ((hk m).1 hm)
+  have h2 : a.msgs.all (fun m => (d.msgs.map (·.1)).contains m.1) = true := by
+    rw [List.all_eq_true]
+    intro c hc
+    rw [List.contains_iff_mem]
+    exact (hk c.1).2 ⟨c, hc, rfl⟩
+  unfold monLoad
+  simp only [hdang, h1, h2, hh, ht]
+  simp
+
 end
 end Qfx.Dict
